@@ -18,6 +18,7 @@ RULE = ("task lists: EVERY list of <=L tasks over 8 concrete tasks of the three 
         "sampler's internal threshold, and EVERY shot count 1..130 on two basis states with bit-exact comparison; exact values: circuits x operators incl. X/Y terms and constants, tasks with shot numbers None/0/5 vs psi^dagger M psi; binding: every list of <=3 tasks "
         "(two sharing ONE circuit object, zero-shot and constant-operator tasks with parametrised circuits) x per-task maps. non-trivial = list mixing at least two task kinds / non-palindromic basis state")
 RULE += ' Also: unsimplified operators repeating a support with different coefficients; a second estimation after the caller shifted the first results in place; symbols with assumptions in symbol maps.'
+RULE += ' Round 6: measurable tasks whose non-constant terms all have coefficient 0; exact values on states with complex amplitudes (RX / S / T / asymmetric custom gates).'
 RULE += ' Round 5: bare multi-qubit PauliTerm operators of measured tasks; a second exact evaluation after the operators were rescaled in place; basis states of 9-10 qubits with terms coupling qubits 8+ to lower ones.'
 ASSUMPTIONS = ["sampling randomness scripted with default answers (basis states have a single outcome with p>1e-12)", "the runner records what it is asked to run through an overriding subclass that only logs and delegates"]
 BOUNDS = {"quick": {"list_len": 4}, "thorough": {"list_len": 5}}
@@ -106,6 +107,38 @@ def list_case(case):
             return {"ok": False, "msg": "second estimation (after the caller modified the first results in place), position %d (%s): wrong values" % (pos, kind), "expected": str(exp), "observed": str(vals.tolist()),
                     "sig": "list:second-call"}
     return {"ok": True, "nt": len(kinds) >= 2, "ops": 2 * len(tasks), "out": "+".join(sorted(kinds))[:40]}
+
+
+def zero_coef_case(case):
+    """{'tasks': [indices into the extended pool]}: task lists containing measurable tasks whose NON-constant terms all carry the coefficient 0 (a model Hamiltonian at zero coupling):
+    still one result per task, at its position, one value per term (zero for the zero-coefficient terms, the constant for a constant term)"""
+    from orquestra.quantum import circuits as C
+    from orquestra.quantum.api.estimation import EstimationTask
+    from orquestra.quantum.estimation import estimate_expectation_values_by_averaging
+    from orquestra.quantum.operators import PauliTerm, PauliSum
+    Z = lambda qs, c: PauliTerm({q: "Z" for q in qs}, c)  # noqa: E731
+    base = tasks_pool()
+    ext = [(base[0][0], base[0][2]), (base[3][0], base[3][2]), (base[5][0], base[5][2]),
+           (EstimationTask(Z([1], 0.0), C.Circuit([C.X(0)], n_qubits=2), 3), [0.0]),
+           (EstimationTask(PauliSum([Z([0], 0.0), Z([0, 1], 0), PauliTerm("I0", 2.0)]), C.Circuit([C.X(0)], n_qubits=2), 2), [0.0, 0.0, 2.0]),
+           (EstimationTask(PauliSum([Z([0], 0.0)]), C.Circuit([C.X(1)], n_qubits=2), 4), [0.0]),
+           (EstimationTask(PauliSum([Z([0], 0j), Z([1], -0.0)]), C.Circuit([C.X(1)], n_qubits=2), 1), [0.0, 0.0])]
+    tasks = [ext[i][0] for i in case["tasks"]]
+    with seams.owned_rng(seams.Script()):
+        try:
+            res = estimate_expectation_values_by_averaging(logging_runner([]), list(tasks))
+        except Exception as e:  # noqa: BLE001
+            return {"ok": False, "msg": "estimation of a task list with zero-coefficient terms raises %s: %s" % (type(e).__name__, str(e)[:120]), "sig": "zerocoef:raises"}
+    if len(res) != len(tasks):
+        return {"ok": False, "msg": "%d results for %d tasks" % (len(res), len(tasks)), "sig": "zerocoef:length"}
+    for pos, (i, r) in enumerate(zip(case["tasks"], res)):
+        exp = ext[i][1]
+        vals = np.asarray(r.values, dtype=complex).reshape(-1)
+        special = i in (1, 2)      # constant / zero-shot tasks of the base pool: judged as in task_lists
+        ok = (abs(vals.sum() - exp[0]) < 1e-12) if i == 1 else (_close(vals, 0) if i == 2 else (len(vals) == len(exp) and _close(vals, exp, atol=1e-12)))
+        if not ok:
+            return {"ok": False, "msg": "position %d (task %d): result does not belong to this task" % (pos, i), "expected": str(exp), "observed": str(vals.tolist()), "sig": "zerocoef:value"}
+    return {"ok": True, "nt": True, "ops": len(tasks), "out": "zerocoef"}
 
 
 def split_case(case):
@@ -261,7 +294,7 @@ def bind_case(case):
     return {"ok": True, "nt": len(tasks) >= 2, "ops": len(tasks), "out": "bind"}
 
 
-FUNCS = {"wide": wide_case, "task_lists": list_case, "split": split_case, "shot_sweep": shots_case, "exact": exact_case, "binding": bind_case}
+FUNCS = {"zero_coefficient_tasks": zero_coef_case, "wide": wide_case, "task_lists": list_case, "split": split_case, "shot_sweep": shots_case, "exact": exact_case, "binding": bind_case}
 
 
 def run(run):
@@ -271,6 +304,8 @@ def run(run):
             [list(c) for k in (1, 2, 3) for c in itertools.product((0, 3, 5, 9, 10), repeat=k) if 9 in c or 10 in c]
     secs = [Section("task_lists", [{"tasks": l} for l in lists], list_case, horizon=120, desc="every task list of length <= %d over 8 tasks of the three kinds" % L),
             Section("split", [{"tasks": l} for l in lists if len(l) <= 3], split_case, desc="split_estimation_tasks_to_measure partitions positions in ascending order")]
+    zc = [list(c) for k in (1, 2, 3) for c in itertools.product(range(7), repeat=k) if any(i >= 3 for i in c)]
+    secs.append(Section("zero_coefficient_tasks", [{"tasks": l} for l in zc], zero_coef_case, horizon=120, desc="task lists of <= 3 over 7 tasks, at least one with shots > 0 whose non-constant terms all have coefficient 0"))
     sw = [{"bits": list(b), "shots": s} for b in itertools.product((0, 1), repeat=3) for s in (1, 2, 3, 7, 8, 9, 10, 20)]
     sw += [{"bits": list(b), "shots": s} for b in itertools.product((0, 1), repeat=2) for s in (1, 3, 4, 5)]
     sw += [{"bits": list(b), "shots": s, "exact": True} for b in ((1, 0, 1), (0, 1, 1)) for s in range(1, 201 if thorough else 131)]
@@ -281,6 +316,11 @@ def run(run):
         for ln in range(0, (3 if thorough and n == 2 else 2) + 1):
             for combo in itertools.product(range(len(A)), repeat=ln):
                 ex.append({"ops": [A[i] for i in combo], "n": n, "operators": list(range(len(OPS_XY)))})
+    # states with COMPLEX amplitudes (the alphabet above only prepares real ones): <psi|M|psi> and <psi|M^T|psi> differ on them for terms with an odd number of Y factors
+    cx = [[{"gate": G("RX", 0.7), "q": [0]}], [{"gate": G("RX", 0.7), "q": [0]}, {"gate": G("RX", -1.1), "q": [1]}], [{"gate": G("H"), "q": [0]}, {"gate": G("S"), "q": [0]}, {"gate": G("CNOT"), "q": [0, 1]}],
+          [{"gate": G("H"), "q": [1]}, {"gate": G("T"), "q": [1]}, {"gate": G("RX", 0.4), "q": [0]}], [{"gate": G("custom1"), "q": [0]}, {"gate": G("custom2"), "q": [1, 0]}],
+          [{"gate": G("RX", 0.7), "q": [2]}, {"gate": G("CNOT"), "q": [2, 0]}, {"gate": G("RZ", 0.9), "q": [0]}, {"gate": G("RX", 0.3), "q": [0]}]]
+    ex += [{"ops": ops_, "n": n_, "operators": list(range(len(OPS_XY)))} for ops_ in cx for n_ in (2, 3) if max(q_ for o_ in ops_ for q_ in o_["q"]) < n_]
     secs.append(Section("exact", ex, exact_case, horizon=120, desc="calculate_exact_expectation_values vs psi^dagger M psi (operators with X/Y terms)"))
     wd = []
     for n in ((9, 10, 11) if thorough else (9, 10)):
